@@ -6,6 +6,10 @@ let c24 = function
   | [h; n; rf] -> nlist (distribute (n_of_string h) (n_of_string n) (n_of_string rf))
   | _ -> "BADCASE"
 
+let c24p = function
+  | [h; n; r1; r2] -> c24 [h; n; r1] ^ "|" ^ c24 [h; n; r2]
+  | _ -> "BADCASE"
+
 let c24gen = function
   | [a; h; n; rf] ->
     let a = (match a with "wide" -> Wide | "wrap16" -> Wrap16 | _ -> Panic16) in
@@ -16,6 +20,7 @@ let c24gen = function
 let dispatch line =
   match split_ws line with
   | "c24" :: r -> c24 r
+  | "c24p" :: r -> c24p r
   | "c24gen" :: r -> c24gen r
   | _ -> "BADCASE"
 
